@@ -247,8 +247,9 @@ func (r *Repository) CreateSubtreeFromUpstreamRepository(upstream *Repository, u
 
 		// Create list of TreeEntry objects representing all blobs except those
 		// currently under localPath
+		// A regular file at localPath itself is replaced by the subtree too
 		for filePath, blobID := range currentFiles {
-			if !strings.HasPrefix(filePath, localPath) {
+			if !strings.HasPrefix(filePath, localPath) && filePath != strings.TrimSuffix(localPath, "/") {
 				entries = append(entries, NewEntryBlob(filePath, blobID))
 			}
 		}
